@@ -134,7 +134,7 @@ def oracle(ctx: Ctx, res) -> None:
 
 
 def run(ctx: Ctx) -> None:
-    total = 200 if ctx.quick else 3000
+    total = 350 if ctx.quick else 3000
     rule_lists = 2 if ctx.quick else 3
     batch = 350
     done = 0
